@@ -109,6 +109,9 @@ var c19Shapes = []c19Shape{
 	{Name: "defmacro-after-call", Uses: "fn", Build: func(n string, s c19Shadow) string {
 		return fmt.Sprintf("%s\n(defmacro %s %s (quasiquote %s))\n", c19Mark, n, s.Formals, c19ShadowProbe)
 	}},
+	{Name: "set-before-call", Uses: "val", Build: func(n string, s c19Shadow) string {
+		return fmt.Sprintf("(set '%s %s)\n%s\n", n, s.lambda(), c19Mark)
+	}},
 	{Name: "param-of-unrelated-defun", Uses: "none", Build: func(n string, s c19Shadow) string {
 		return fmt.Sprintf("(defun c19-g (%s) %s)\n%s\n", n, n, c19Mark)
 	}},
@@ -312,14 +315,28 @@ func c19RunShadowCase(w *fw.W, sc c19ShadowCase, wr *c19Wrap, ks ...int) {
 	fnd.flush(w)
 }
 
+// c19CtlCache holds the control runs of the current case's templates (per
+// worker process).
+var c19CtlCache = map[string]c19Obs{}
+
 // c19JudgeShadow evaluates control + real program, lints the real program in
 // the three modes and applies the property.
 func c19JudgeShadow(w *fw.W, fnd *c19Findings, sh c19Shape, target c19Fun, shadow c19Shadow, tmpl string, args []string, wrapLabel, keyExtra string) (violated bool) {
 	// control run: the target replaced by a probe must be evaluated exactly once,
 	// without error, and no shadow invocation may follow it.
 	csrc, cpos := c19Place(tmpl, "(verif:probe 'c19-target)")
-	ctl := c19Eval(csrc, cpos)
-	w.Eval(1)
+	ctl, cached := c19CtlCache[csrc]
+	if !cached {
+		// the control source does not depend on the argument count: the k = 0..4
+		// judgements of one case share one control evaluation (a fresh runtime
+		// evaluates the same text the same way)
+		ctl = c19Eval(csrc, cpos)
+		w.Eval(1)
+		if len(c19CtlCache) >= 32 {
+			c19CtlCache = map[string]c19Obs{}
+		}
+		c19CtlCache[csrc] = ctl
+	}
 	pre, seenTarget, after := 0, 0, 0
 	for _, p := range ctl.T.Trace {
 		switch p.Tag {
@@ -451,7 +468,11 @@ func c19JudgeShadow(w *fw.W, fnd *c19Findings, sh c19Shape, target c19Fun, shado
 	rel := c19Rel(tsig, k)
 	w.CoverKey(fmt.Sprintf("shadow|%s|%s|%s|%s|%s|lint:%s|wrap:%v", sh.Name, target.Kind, target.Name, rel, class, lintClass, wrapLabel != ""))
 	w.SetAdd("shadow_shapes", sh.Name)
-	w.SetAdd("shadow_reach_by_shape", sh.Name+" -> "+strings.TrimSuffix(strings.TrimSuffix(class, "-bind-fail"), "-bound"))
+	if reach := sh.Name + " -> " + strings.TrimSuffix(strings.TrimSuffix(class, "-bind-fail"), "-bound"); strings.Contains(sh.Name, ":then:") {
+		w.SetAdd("pkgmove_reach_by_movement", reach) // family 7 (a set of its own: sets over 60 members are truncated in the evidence)
+	} else {
+		w.SetAdd("shadow_reach_by_shape", reach)
+	}
 	for _, n := range strings.Split(wrapLabel, ">") {
 		if n != "" {
 			w.SetAdd("wrappers", n)
